@@ -260,6 +260,17 @@ def wideratio_compound(mode: str, version: int, thorough: bool = False):
               "m2": lambda: ("If", e.u(2), ("Int", 1), ("Int", M))}
         out.append(("op:WideRatio:order:%s" % nm,
                     prog(mode, ("Seq", e.tag(60), e.observe_u(("WideRatio", tuple(tr[k]() for k in ns), tuple(tr[k]() for k in ds))))), {}))
+    # LITERAL factors at the magnitudes where the rendering of integers and the constant blocks change shape (2^32, 2^63, 2^64-1, low
+    # word with leading zero digits); one run-time factor keeps the program from being a constant
+    big = [2 ** 32, 2 ** 32 + 1, 2 ** 40 + 5, 3 * 2 ** 32 + 0x0FFFFFFF, 2 ** 63, 2 ** 63 + 1, 2 ** 64 - 2, M, 2 ** 32 - 1, 2 ** 31]
+    for bi, b in enumerate(big):
+        e = Env(mode, version)
+        rt = ("If", e.u(0), ("Int", 6), ("Int", 1))
+        b2 = big[(bi + 3) % len(big)]
+        out.append(("op:WideRatio:literal:%d" % bi,
+                    prog(mode, ("Seq", e.tag(60), e.observe_u(("WideRatio", (("Int", b), rt), (("Int", 4), ("Int", 2)))),
+                                e.observe_u(("WideRatio", (("Int", b), ("Int", b2), rt), (("Int", b2), ("Int", 3)))),
+                                e.observe_u(("WideRatio", (rt, ("Int", b2)), (("Int", b), ("Int", 1)))))), {}))
     # factors read from variables (the slot optimiser rewrites exactly this traffic from version 9 on)
     for nm, pre, ns, ds in (
             ("load-after-arm", [("Store", "x", "v1"), ("If", "c", ("Un", "Pop", ("Load", "x"))), ("Store", "x", "v2")], [("Load", "x")], ["3", "5"]),
